@@ -87,18 +87,20 @@ class QWorld:
             self.ev("join", j=j)
         elif o == "release":
             f = self.gates.get(op["c"])
-            if f is not None and not f.done():
+            eff = f is not None and not f.done()
+            if eff:
                 f.set_result(op["out"])
             else:
                 self.skipped += 1
-            self.ev("release", c=op["c"], out=op["out"])
+            self.ev("release", c=op["c"], out=op["out"], eff=eff)
         elif o == "cancel":
             t = self.cons.get(op["c"])
-            if t is not None and not t.done():
+            eff = t is not None and not t.done()
+            if eff:
                 t.cancel()
             else:
                 self.skipped += 1
-            self.ev("cancel", c=op["c"])
+            self.ev("cancel", c=op["c"], eff=eff)
         else:
             raise ValueError(o)
 
